@@ -6,7 +6,7 @@
 Prints one line per check: property, exit code, VIOLATION lines."""
 import os, subprocess, sys, json, time
 
-ROOT = "/work/mutrun"
+ROOT = os.environ.get("MUTROOT", "/work/mutrun")
 ALL = [f"C{i:02d}" for i in range(1, 21)]
 
 
